@@ -43,4 +43,8 @@ def run(ctx: Ctx) -> None:
     rep.rule("C06.R7", "the reading methods (has_blob, fetch_blob, fetch_paths) modify no entry of the store: a kill inside a reader cannot tear a committed entry")
     n7 = S.readers_read_only(ctx, v, "C06.R7")
     rep.floor("C06.R7", n7, 3)
+    rep.rule("C06.R8", "every directory of the store is created by the constructor whatever the state of the other ones: a process killed between two "
+                       "mkdir calls must not leave a store that no later process completes")
+    n8 = S.dirs_created_unconditionally(ctx, v, "C06.R8")
+    rep.floor("C06.R8", n8, 2)
     rep.floor("C06.effects", v.n_effects, 9)
